@@ -6,6 +6,7 @@
 #include "mp/sol.h"
 #include "mp/solver-io.h"
 #include "mp/suffix.h"
+#include "mp/problem.h"
 
 namespace iosim {
 
@@ -192,6 +193,58 @@ std::string write_sol_real(const Sol& s, const std::string& path) {
     mp::SolutionAdapter<SolProblem> sa(s.status, &pb, s.message.c_str(), mp::ArrayRef<long>(s.options.data(), s.options.size()),
                                        mp::ArrayRef<double>(s.x.data(), s.x.size()), mp::ArrayRef<double>(s.y.data(), s.y.size()), s.objno);
     mp::WriteSolFile(path, sa);
+  } catch (const std::exception& e) {
+    return std::string("exception: ") + e.what();
+  }
+  return "";
+}
+
+// ------------------------------------------------------------------ real writer, entered where a driver enters it
+namespace {
+// what mp::SolutionWriterImpl asks of its solver
+struct DrvSolver {
+  int objno = 0;
+  bool need_multiple_solutions() const { return false; }
+  const char* solution_stub() const { return ""; }
+  int objno_used() const { return objno; }
+};
+template <class T>
+void report_suffix(mp::Problem& P, const SolSuffix& f, int size, bool history) {
+  mp::SuffixDef<T> def(f.name, f.kind | mp::suf::OUTPUT, f.table);
+  std::vector<T> dense((size_t)size, T());
+  if (history) {          // an earlier solution of the same problem object reported other values for the same suffix
+    std::vector<T> prev((size_t)size, T());
+    for (int i = 0; i < size; ++i) prev[(size_t)i] = (T)(3 + i % 4);
+    P.ReportSuffix(def, mp::ArrayRef<T>(prev.data(), prev.size()));
+  }
+  for (auto& p : f.vals) if (p.first >= 0 && p.first < size) dense[(size_t)p.first] = (T)p.second;
+  P.ReportSuffix(def, mp::ArrayRef<T>(dense.data(), dense.size()));
+}
+}  // namespace
+
+// The same solution written the way a driver writes it: suffix values reported to an mp::Problem (Problem::ReportSuffix, dense
+// vectors, optionally after an earlier report), vectors handed to mp::SolutionWriterImpl::HandleSolution as pointers.
+// Returns "skip" when the solution does not fit that interface (partial vectors, suffix sizes other than the item counts).
+std::string write_sol_driver_entry(const Sol& s, const std::string& stub, bool history) {
+  try {
+    if (!(s.x.empty() || (int)s.x.size() == s.nvars) || !(s.y.empty() || (int)s.y.size() == s.ncons)) return "skip";
+    mp::Problem P;
+    for (int j = 0; j < s.nvars; ++j) P.AddVar(0, 1);
+    for (int i = 0; i < s.ncons; ++i) P.AddCon(0, 1);
+    if (s.nlcons > 0) return "skip";
+    P.AddObj(mp::obj::MIN);
+    for (auto& f : s.sufs) {
+      int want = P.GetSuffixSize((mp::suf::Kind)(f.kind & 3));
+      if (f.size != want || want == 0) return "skip";        // (a suffix over zero items is not reported through this interface)
+      for (auto& f2 : s.sufs) if (&f2 != &f && f2.name == f.name && f2.kind == f.kind) return "skip";     // one name, one kind, two value types
+    }
+    for (auto& f : s.sufs) {
+      int size = P.GetSuffixSize((mp::suf::Kind)(f.kind & 3));
+      if (f.real) report_suffix<double>(P, f, size, history); else report_suffix<int>(P, f, size, history);
+    }
+    DrvSolver solver; solver.objno = s.objno;
+    mp::SolutionWriterImpl<DrvSolver, mp::Problem> w(stub, solver, P, mp::ArrayRef<long>(s.options.data(), s.options.size()));
+    w.HandleSolution(s.status, s.message.c_str(), s.x.empty() ? nullptr : s.x.data(), s.y.empty() ? nullptr : s.y.data(), 0.0);
   } catch (const std::exception& e) {
     return std::string("exception: ") + e.what();
   }
